@@ -367,6 +367,9 @@ def ephem_strict_case():
                 desc="Ephem.iter(strict=True) refuses (ValueError) exactly the ranges that leave [first, last] of the table")
 
 
+DATE_ORDER = {"dates_list": [0, 1, 2, 3], "dates_unordered": [2, 0, 3, 1]}
+
+
 def keplernum_case(kind, K):
     """control skeleton of KeplerNum._iter with _make_step = 'advance by exactly step' and the interpolation order bounded to 3:
     dates yielded for a range starting at the epoch are start + k*out_step, first to last inclusive, none beyond stop, no error --
@@ -382,7 +385,7 @@ def keplernum_case(kind, K):
         if kind == "adaptive":
             # the integrator shortens every step to rho * h (3/4 <= rho <= 1); output step left to its default (= h)
             p += [v["step"] == v["h"], v["span"] >= 2 * v["h"], v["span"] < K * v["h"], 4 * v["rho"] >= 3, v["rho"] <= 1]
-        elif kind == "dates_list":
+        elif kind in ("dates_list", "dates_unordered"):
             p += [v["span"] == 3 * v["step"], 3 * v["step"] >= 2 * v["h"], 3 * v["step"] < K * v["h"]]
         elif kind == "fwd_long":
             p += [v["span"] >= 2 * v["h"], v["span"] < K * v["h"], v["span"] < K * v["step"]]
@@ -436,9 +439,9 @@ def keplernum_case(kind, K):
                     out = {}
                     n = 0
                     try:
-                        if kind == "dates_list":
-                            # an explicit list of dates (plain Python list): start + k*step, 4 points
-                            gen = prop.iter(dates=[epoch + td(v["step"] * k) for k in range(4)])
+                        if kind in ("dates_list", "dates_unordered"):
+                            # an explicit list of dates (plain Python list): start + k*step, 4 points (in order, or shuffled)
+                            gen = prop.iter(dates=[epoch + td(v["step"] * k) for k in DATE_ORDER[kind]])
                         elif kind == "adaptive":
                             gen = prop.iter(start=epoch, stop=stop)
                         else:
@@ -460,7 +463,8 @@ def keplernum_case(kind, K):
             from beyond.env.solarsystem import get_body
             epoch = c03.mk_date(env, m, 58000, 0.0, "UTC")
             h, span, step = {"fwd_long": (60.0, 1000.0, 510.0), "fwd_short": (60.0, 100.0, 55.0), "bwd": (60.0, -1000.0, 55.0),
-                             "dates_list": (60.0, 1650.0, 550.0), "adaptive": (120.0, 1200.0, 120.0)}[kind]
+                             "dates_list": (60.0, 1650.0, 550.0), "dates_unordered": (60.0, 1650.0, 550.0),
+                             "adaptive": (120.0, 1200.0, 120.0)}[kind]
             if kind == "adaptive":
                 orb = Orbit([6.7e6, 0, 0, 0, 9.5e3, 0], epoch, "cartesian", "EME2000",
                             KeplerNum(_td(seconds=h), get_body("Earth"), method="dopri54", tol=1e-4))
@@ -469,8 +473,8 @@ def keplernum_case(kind, K):
             out = {}
             n = 0
             try:
-                if kind == "dates_list":
-                    gen = orb.iter(dates=[epoch + _td(seconds=step * k) for k in range(4)])
+                if kind in ("dates_list", "dates_unordered"):
+                    gen = orb.iter(dates=[epoch + _td(seconds=step * k) for k in DATE_ORDER[kind]])
                 elif kind == "adaptive":
                     gen = orb.iter(start=epoch, stop=epoch + _td(seconds=span))
                 else:
@@ -502,10 +506,11 @@ def keplernum_case(kind, K):
         if not env.symbolic:
             r["_conc"] = out["_conc"]
         for k in range(n):
-            r[f"t{k}"] = direction * k * step
+            r[f"t{k}"] = direction * (DATE_ORDER[kind][k] if kind in DATE_ORDER and k < 4 else k) * step
         return r
     what = {"fwd_long": "a point beyond stop is yielded", "fwd_short": "span shorter than the interpolation order raises ValueError",
             "bwd": "backward range raises ValueError", "dates_list": "dates given as a plain list raise AttributeError",
+            "dates_unordered": "dates given in another order than chronological are not yielded in the given order",
             "adaptive": "default output step yields the irregular nodes of an adaptive integrator"}[kind]
     return Case(f"keplernum/{kind}", ins, run, ref, pre=pre, timeout=90, maxpaths=1500, tol=1e-9, abs_tol=3e-6,
                 signature=f"KeplerNum._iter: {what}",
@@ -668,7 +673,8 @@ def all_cases(tier):
             cs.append(analytical_case(sign, sk, K))
     cs += [dates_case(), ephem_case("step", K), ephem_case("nostep", K), ephem_case("dates", K), ephem_strict_case(), ephem_bwd_case(K), ephem_interleaved_case(),
            keplernum_case("fwd_long", bounds(tier)["keplernum_steps"]), keplernum_case("fwd_short", bounds(tier)["keplernum_steps"]),
-           keplernum_case("bwd", bounds(tier)["keplernum_steps"]), keplernum_case("dates_list", bounds(tier)["keplernum_steps"]), keplernum_case("adaptive", bounds(tier)["keplernum_steps"]),
+           keplernum_case("bwd", bounds(tier)["keplernum_steps"]), keplernum_case("dates_list", bounds(tier)["keplernum_steps"]),
+           keplernum_case("dates_unordered", bounds(tier)["keplernum_steps"]), keplernum_case("adaptive", bounds(tier)["keplernum_steps"]),
            numiter_args_case("timedelta"), numiter_args_case("date"), none_case()]
     return cs
 
